@@ -195,9 +195,26 @@ func suiteV06(c *vctx) {
 		a.iface.Add("Alice", pw["Alice"], false)
 		a.iface.Add("ALICE", pw["ALICE"], true)
 		a.iface.Add("Root", pw["Root"], false)
+		// accounts whose names extend another account's name by a realm
+		pw["bob@example.org"], pw["alice@corp"] = "BobAtOrg-Passw0rd", "AliceAtCorp-Passw0rd"
+		a.pws[pw["bob@example.org"]], a.pws[pw["alice@corp"]] = true, true
+		a.iface.Add("bob@example.org", pw["bob@example.org"], true)
+		a.iface.Add("alice@corp", pw["alice@corp"], false)
 		// logins through the API itself
 		for _, u := range []string{"root", "alice", "carol"} {
 			s.do(vReq{ep: "authenticate", username: u, password: pw[u]})
+		}
+		// a login names exactly the account whose password was presented: variants of a name
+		// (realm suffix, case, white space, NUL) with the BASE account's password get no token
+		for _, v := range []struct{ name, base string }{{"bob@example.org", "bob"}, {"alice@corp", "alice"}, {"alice@nowhere", "alice"},
+			{"bob@", "bob"}, {"root@localhost", "root"}, {"bob ", "bob"}, {" bob", "bob"}, {"bob\x00", "bob"}, {"BOB", "bob"}, {"bob", "bob@example.org"},
+			{"alice", "alice@corp"}, {"bob@example.org@x", "bob@example.org"}} {
+			s.do(vReq{ep: "authenticate", username: v.name, password: pw[v.base]})
+			if t := s.toks["fresh:"+v.name]; t != "" && v.name != v.base {
+				// a token was issued for a name whose password was not presented: what can it do?
+				s.do(vReq{ep: "update", session: t, username: v.name, newpw: "Taken-Over-Passw0rd"})
+				s.do(vReq{ep: "list", session: t})
+			}
 		}
 		adminTok, userTok, carolTok := s.toks["fresh:root"], s.toks["fresh:alice"], s.toks["fresh:carol"]
 		// carol is demoted after her login: her token still says admin (administrator AT LOGIN)
